@@ -123,7 +123,7 @@ Proof.
     { destruct (Nat.eq_dec (n_adv SCanceled u ems) 0) as [|N]; [assumption|].
       destruct (cancel_later_met _ _ _ _ _ ND HI HR) as (_ & _ & C); [fold ems; lia|]. fold ems in C.
       assert (n_canceled u ems >= n_adv SCanceled u ems)%nat.
-      { clear. induction ems as [|[[] items p|us|] e IH]; cbn [n_canceled n_adv est_eqb]; lia. }
+      { clear. induction ems as [|[[] items []|us|] e IH]; cbn [n_canceled n_adv est_eqb counts andb]; lia. }
       lia. }
     unfold fault_of. unfold n_hand in E2.
     destruct (k_fault (kof sc u)); cbn [view l_n cnt_of c_coll c_fail c_stage] in SQ; fold ems in SQ;
